@@ -6,7 +6,6 @@ COMMON_ASSUMPTIONS = [
 ]
 
 CHECKS = {
-    "TSIZE": dict(runs=[dict(pkg="rib", harness=h, reach=["end"], validate=0, opts=dict(budget_s=2400, only=["C01:","C02:","C03:","C06:","C12:"])) for h in ("VfRIB_t2","VfRIB_t1","VfRIB_t1r")], level_text="", level_note=""),
     "C05": dict(
         runs=[
             dict(pkg="server", harness="VfC05_isNewMaster", bounds="all 2^256 (candidate, existing) id pairs; no loops"),
@@ -82,7 +81,9 @@ _B["VfRIB_qo"] = "acknowledgement order: 1 next-hop, 2 held IPv4 entries (possib
 _B["VfRIB_qEnum"] = "enum-typed payload: pre-state 1 optional next-hop (encapsulate-/decapsulate-header any DEFINED number) + 1 optional group; one symbolic next-hop ADD/REPLACE/DELETE whose two header fields are ANY int32 (all 2^64 pairs, defined or not), any instance name, symbolic index"
 _RE = [("VfRIB_qEnum", _B["VfRIB_qEnum"])]
 _RQ = [(h, _B[h]) for h in ("VfRIB_q1", "VfRIB_q2", "VfRIB_qNoFwd", "VfRIB_qx", "VfRIB_qo")]
-_RT = [(h, _B[h]) for h in ("VfRIB_t1", "VfRIB_t2", "VfRIB_tOrder")]
+_B["VfRIB_t1r"] = "as q1 plus a held operation (ADD or REPLACE) and optional payload fields everywhere (next-hop tag / pop-top-label, backup group, colour, metadata, weights); one symbolic operation with <=2 members"
+_B["VfRIB_t3e"] = "histories from the EMPTY two-instance RIB: THREE consecutive fully symbolic operations (next-hop / group of <=1 member / IPv4 entry; ADD/REPLACE/DELETE; any instance name)"
+_RT = [(h, _B[h]) for h in ("VfRIB_t1", "VfRIB_t1r", "VfRIB_t2", "VfRIB_tOrder")]
 _RIBNOTE = "Trusted: go/ssa, gosym, z3, the Go models of candidateRIB/MergeStructInto (validated natively by TestVfModelAgreement on the modelled fields), the reference RIB in harness/rib/vf_ref.go. Payload = key, group reference (+instance), entry metadata, group members/weights/backup/colour, next-hop network-instance; other payload fields are outside (C07)."
 CHECKS["C01"] = dict(runs=_rib(["C01:"], _RQ + _RE, _RT), assumptions=["pre-states are reference-closed states built by the canonical history (next-hops, groups, entries, held operations); one or two further symbolic operations"],
     level_text="Differential bounded symbolic execution of the real RIB (AddEntry/DeleteEntry and everything below) against a reference fold of the acknowledged operations: after every operation the real tables equal the fold, for every value of the symbolic keys/payloads/instance names.", level_note=_RIBNOTE)
@@ -96,7 +97,7 @@ CHECKS["C03"] = dict(runs=_rib(["C03:"], _RQ, _RT) + [dict(pkg="rib", harness="V
 
 CHECKS["C12"] = dict(
     runs=[dict(pkg="server", harness="VfC12_malformed", reach=["end", "rejected", "delete-of-absent-key"],
-               bounds="one operation sent by the elected primary through doModify/modifyEntry into the real RIB: 30 malformed shapes (nil at every level of every entry kind, zero ids, empty group, zero/body-less members, 11 invalid prefixes, every out-of-range 64-bit label, unknown group instance, every undefined enum number in the encapsulate-/decapsulate-header fields of next-hops and IPv4/IPv6 entries) x any operation type number; plus valid content under an arbitrary unknown/empty instance name or an undefined operation type")]
+               bounds="one operation sent by the elected primary through doModify/modifyEntry into the real RIB: 31 malformed shapes (nil at every level of every entry kind, zero ids, empty group, zero/body-less members, 11 invalid prefixes, every out-of-range 64-bit label, unknown group instance, every undefined enum number in the encapsulate-/decapsulate-header fields of next-hops and IPv4/IPv6 entries and in an enumerated MPLS label) x any operation type number; plus valid content under an arbitrary unknown/empty instance name or an undefined operation type")]
          + _rib(["C12:"], _RQ + _RE, _RT),
     assumptions=["what happens inside the real candidateRIB (protomap/ytypes) is replaced by its model; the model's reaction to an enum number the type does not define (panic or error) is a calibration fact measured natively on the current tree before every run (TestVfModelCalibrate) and model and real code are compared on 2 500 / 20 000 random payloads incl. undefined numbers (TestVfModelAgreement); a panic path found through the model is reported only after the real code panicked in the native replay",
                  "nil elements inside repeated fields are not wire-representable and are excluded"],
